@@ -95,15 +95,29 @@ fn conversions(a: &Integer) -> Value {
 }
 
 fn guarded<F: FnOnce() -> Integer>(f: F) -> Value {
-    match catch_unwind(AssertUnwindSafe(f)) {
-        Ok(i) => observe(i),
+    match catch_unwind(AssertUnwindSafe(|| observe(f()))) {
+        Ok(v) => v,
         Err(_) => failed("panic"),
     }
 }
 
-fn checked<E, F: FnOnce() -> Result<Integer, E>>(f: F) -> Value {
+fn gb<F: FnOnce() -> bool>(panics: &mut Vec<String>, name: &str, f: F) -> bool {
     match catch_unwind(AssertUnwindSafe(f)) {
-        Ok(Ok(i)) => observe(i),
+        Ok(b) => b,
+        Err(_) => { panics.push(name.to_string()); false }
+    }
+}
+
+fn gi<F: FnOnce() -> i64>(panics: &mut Vec<String>, name: &str, f: F) -> i64 {
+    match catch_unwind(AssertUnwindSafe(f)) {
+        Ok(b) => b,
+        Err(_) => { panics.push(name.to_string()); 99 }
+    }
+}
+
+fn checked<E, F: FnOnce() -> Result<Integer, E>>(f: F) -> Value {
+    match catch_unwind(AssertUnwindSafe(|| f().map(observe))) {
+        Ok(Ok(v)) => v,
         Ok(Err(_)) => failed("err"),
         Err(_) => failed("panic"),
     }
@@ -126,6 +140,7 @@ pub fn table<W: Write>(out: &mut W) {
     for a in ops.iter() {
         for b in ops.iter() {
             let (a, b) = (*a, *b);
+            let mut panics: Vec<String> = vec![];
             let rec = json!({
                 "kind": "sint", "a": enc(&a), "b": enc(&b),
                 "add": guarded(|| a + b), "sub": guarded(|| a - b), "mul": guarded(|| a * b), "div": guarded(|| a / b),
@@ -134,11 +149,16 @@ pub fn table<W: Write>(out: &mut W) {
                 "adda": guarded(|| { let mut x = a; x += b; x }), "suba": guarded(|| { let mut x = a; x -= b; x }),
                 "mula": guarded(|| { let mut x = a; x *= b; x }), "diva": guarded(|| { let mut x = a; x /= b; x }),
                 "conv": conversions(&a),
-                "nega": guarded(|| a.invert_sign()), "absa": guarded(|| a.abs()), "ida": observe(a),
-                "lt": a < b, "le": a <= b, "gt": a > b, "ge": a >= b, "eq": a == b, "ne": a != b,
-                "cmp": match a.cmp(&b) { std::cmp::Ordering::Less => -1, std::cmp::Ordering::Equal => 0, _ => 1 },
-                "pcmp": match a.partial_cmp(&b) { Some(std::cmp::Ordering::Less) => -1, Some(std::cmp::Ordering::Equal) => 0, Some(_) => 1, None => 2 },
+                "nega": guarded(|| a.invert_sign()), "absa": guarded(|| a.abs()), "ida": guarded(|| a),
+                "lt": gb(&mut panics, "lt", || a < b), "le": gb(&mut panics, "le", || a <= b),
+                "gt": gb(&mut panics, "gt", || a > b), "ge": gb(&mut panics, "ge", || a >= b),
+                "eq": gb(&mut panics, "eq", || a == b), "ne": gb(&mut panics, "ne", || a != b),
+                "cmp": gi(&mut panics, "cmp", || match a.cmp(&b) { std::cmp::Ordering::Less => -1, std::cmp::Ordering::Equal => 0, _ => 1 }),
+                "pcmp": gi(&mut panics, "pcmp", || match a.partial_cmp(&b) { Some(std::cmp::Ordering::Less) => -1, Some(std::cmp::Ordering::Equal) => 0, Some(_) => 1, None => 2 }),
             });
+            // a comparison that panics is an observation like any other (reported by the specification)
+            let mut rec = rec;
+            rec["panics"] = json!(panics);
             writeln!(out, "{}", rec).unwrap();
             n += 1;
         }
